@@ -364,6 +364,11 @@ func runC03(cx *Ctx, r *Report) {
 		r.requireCount("refund-closes", 1)
 	}
 	_ = types.Typ
+	// an open contract restored from genesis is back on the expiry queue (otherwise it is
+	// never refunded after a restart from exported state)
+	if n := cx.importRebuildRule(r, []string{"htlc"}, "import-rebuilds-queue"); n < 1 {
+		r.toolErr("htlc import: no record/queue pair found in the import loop (%d)", n)
+	}
 	r.requireCount("claim-guards", 1)
 	r.requireCount("typestate", 2)
 	r.requireCount("queue-writers", 1)
@@ -477,6 +482,22 @@ func runC04(cx *Ctx, r *Report) {
 			default:
 				r.violate("double-entry", key, pos, "unrecognised supply counter update "+d.field+d.sign)
 			}
+		}
+		// a counter is only ever moved by ±coin (the updates above); a plain assignment rewrites
+		// the books. The one exception is the begin blocker's window reset / new-asset
+		// initialisation, which writes zero.
+		for _, x := range per[name] {
+			if !strings.HasPrefix(x.ev.Kind, "assign:AssetSupply.") {
+				continue
+			}
+			field := strings.TrimPrefix(x.ev.Kind, "assign:AssetSupply.")
+			val := x.ev.Args[0].LooseString()
+			zero := val == "0" || strings.HasSuffix(val, ", math.ZeroInt())") || val == "math.ZeroInt()"
+			okA := name == "BeginBlock" && zero && (field == "TimeElapsed" || field == "TimeLimitedCurrentSupply")
+			if name == "BeginBlock" && field == "TimeElapsed" {
+				continue // judged by the time-window rule below
+			}
+			r.check(okA, "counter-assign", kc.next(name+"|"+field), x.ev.Pos(cx), "the only plain assignment to "+field+" is the window reset to zero", "supply counter "+field+" is overwritten with "+trunc(val, 160)+" in "+name+" instead of being moved by the transferred coin: the amount already counted against the limit is rewritten")
 		}
 		// converse: every mint / burn, and every escrow movement of a cross-chain transfer, is matched
 		for _, b := range banks {
